@@ -26,9 +26,10 @@ THEOREMS = [
     # Gen/AlgoPopMap.lean: Population.find_swcs, LazyLoadingTrees.__iter__, Population.map
     "RefinePopMap.find_swcs_refines", "RefinePopMap.lazy_iter_refines", "RefinePopMap.pop_map_refines", "C19.generated_find_swcs",
     "C19.generated_find_swcs_order", "C19.frontState_inv", "C19.generated_map_results", "C19.generated_map_load_at_most_once",
-    # Populations.from_swc (Gen/AlgoPopFront `pops_from_swc`): constructors on fresh containers, Populations.__init__, the construction part (PARTIAL)
+    # Populations.from_swc (Gen/AlgoPopFront `pops_from_swc`): constructors on fresh containers, Populations.__init__, the matching for every list of listings
     "RefineFromSwc.lazy_init_eq", "RefineFromSwc.pop_init_fresh", "RefineFromSwc.pops_init_eq", "RefineFromSwc.fs_for5_loop",
-    "RefineFromSwc.body_split_partial", "RefineFromSwc.pops_from_swc_tail_partial",
+    "RefineFromSwc.body_split", "RefineFromSwc.pops_from_swc_tail", "RefineFromSwc.pops_from_swc_plain", "RefineFromSwc.pops_from_swc_check",
+    "RefineFromSwc.pops_from_swc_intersect", "RefineFromSwc.pops_from_swc_refines", "RefineFromSwc.mem_interAll", "RefineFromSwc.from_swc_rows",
 ]
 TRUSTED = ["hand-written models Model/Population.lean of _get_idx / LazyLoadingTrees / ChainTrees / NestTrees / Population construction "
            "(tied by the c19.lazy and c19.chain correspondence: returned file and read log compared exactly for every operation script)"]
